@@ -71,6 +71,9 @@ const (
 	// tgtNoHandler: a second client under attack, created WITHOUT any WithClientHandler. Call
 	// frames from the (fake) server must be dropped by it, not crash it.
 	tgtNoHandler = "client-nohandler"
+	// tgtReconn: a client with a reverse handler and reconnection enabled whose first connection
+	// was dropped by the peer; the hostile input arrives on the connection it re-established
+	tgtReconn = "client-reconnected"
 )
 
 type msg struct {
@@ -508,6 +511,15 @@ func enumerate(tier string) []input {
 		for _, rc := range wsRawCases(n, target == "server") {
 			add(input{Target: target, Kind: "ws-level", Conn: rc.conn, Msgs: []msg{{mtRaw, rc.data}}, Note: rc.note})
 		}
+		if target == "client" {
+			fs := append(append([][]byte{}, seedFrames(n)...), extraFrames(n)...)
+			if tier == "thorough" {
+				fs = append(fs, productFrames(n)...)
+			}
+			for _, f := range fs {
+				add(input{Target: tgtReconn, Kind: "single-after-reconnect", Conn: connUsable, Msgs: []msg{{mtText, f}}})
+			}
+		}
 		if tier != "thorough" {
 			continue
 		}
@@ -873,6 +885,9 @@ func (w *clientWorld) run(idx int, in input, withHandler bool) (viol, harness st
 	ctx, cancel := context.WithCancel(context.Background())
 	defer cancel()
 	opts := wsOpts()
+	if in.Target == tgtReconn {
+		opts = []jsonrpc.Option{jsonrpc.WithPingInterval(0), jsonrpc.WithTimeout(0), jsonrpc.WithReconnectBackoff(10*time.Millisecond, 50*time.Millisecond)}
+	}
 	if withHandler {
 		opts = append(opts, jsonrpc.WithClientHandler("R", &revAPI{}))
 	}
@@ -885,6 +900,20 @@ func (w *clientWorld) run(idx int, in input, withHandler bool) (viol, harness st
 	case sc = <-w.conns:
 	case <-time.After(stepTimeout):
 		return "", "fake server did not see the client's connection"
+	}
+	if in.Target == tgtReconn {
+		// the peer drops the first connection; the client dials again by itself
+		sc.Close()
+		select {
+		case sc = <-w.conns:
+		case <-time.After(stepTimeout):
+			return fmt.Sprintf("the client did not reconnect within %v of its connection being dropped", stepTimeout), ""
+		}
+		// the client reads from the new connection only once it has swapped it in: an answered
+		// reverse call tells that calls issued from now on are sent on this connection
+		if err := probe(sc, fmt.Sprintf("ready-%d", idx), "R.Ping", 4000000+idx); err != nil {
+			return "after reconnecting, the client's handler does not answer a reverse call on the new connection: " + err.Error(), ""
+		}
 	}
 	defer sc.Close()
 
